@@ -90,23 +90,22 @@ static inline uint64_t vtape_next(void)
 	}
 #else
 /* -------------------------------------------------------------------- CBMC */
+/* The tape is not materialised for the verifier (a large array object makes every dereference of a
+ * havocked pointer expensive): the replay tape is recovered from the counterexample trace as the
+ * sequence of values returned by vtape_next(), in call order. */
 uint64_t nondet_uint64_t(void);
-extern uint64_t g_tape[VTAPE_MAX];
 extern unsigned int g_tape_n;
 static inline uint64_t vtape_next(void)
 {
-	uint64_t v = nondet_uint64_t();
+	uint64_t vtape_value = nondet_uint64_t();
 
-	g_tape[g_tape_n++] = v;
-	return v;
+	return vtape_value;
 }
 
 #define ASSUME(c) __CPROVER_assume(c)
 #define CHECK(c, msg) __CPROVER_assert(c, msg)
 #define CANARY(msg) __CPROVER_assert(0, "CANARY: " msg)
-#define VERIF_MAIN(h)                                                              \
-	uint64_t g_tape[VTAPE_MAX];                                                \
-	unsigned int g_tape_n;
+#define VERIF_MAIN(h) unsigned int g_tape_n;
 #endif
 
 #define VND_U8() ((uint8_t)vtape_next())
